@@ -27,7 +27,9 @@ def round_trace(run, lp, it):
                      meat=num(v["meat_eaten"][m], pct), milk=num(s["milk"][m], pct))
         reported = {f: num(rep[f][m]) for f in ("stored_food", "outdoor_crops", "seaweed", "cell_sugar", "scp", "greenhouse", "fish", "meat", "milk")}
         keq = {k: num(it["kcals_eq"][k][m]) for k in KEQ}
-        csv = {k: num(it["csv"][CSVMAP[k]][m]) for k in KEQ} if it.get("csv") else {k: num(-1.0) for k in KEQ}
+        ok_csv = it.get("csv") and all(CSVMAP[k] in it["csv"] and len(it["csv"][CSVMAP[k]]) == n for k in KEQ)
+        # a table that is missing, unparseable or of the wrong length is reported through CsvEqualsResult (sentinel -1)
+        csv = {k: num(it["csv"][CSVMAP[k]][m]) for k in KEQ} if ok_csv else {k: num(-1.0) for k in KEQ}
         ev.append(dict(ev="Month", m=m, alloc=alloc, reported=reported, keq=keq, csv=csv, fed=num(it["kcals_fed"][m])))
     ev.append(dict(ev="End"))
     return dict(hdr=dict(cc=run["job"]["cc"], preset=run["job"]["preset"], round=lp["round"], kind=lp["kind"], pf=it["pf"], z=lp["z"],
